@@ -716,7 +716,13 @@ def run_case(case):
         continue
       rec.cover("ball_servo_error_beyond_pi_gear", 1)
       if abs(e % 2.0 - 1.0) < 1e-3 or not well[i]:
-        continue  # at the wrap discontinuity
+        # at the wrap discontinuity MuJoCo's value flips by 2*pi*|gear|*kp under a perturbation of the float32 size:
+        # this actuator is not judged in this world
+        rec.inconcl("ball servo error within 1e-3 of the wrap discontinuity")
+        rec.count("ball_servo_at_wrap_discontinuity")
+        fref[i] = fgot[i]
+        substituted = True
+        continue
       rec.check()
       if abs(fgot[i] - fref[i]) <= bound[i]:
         continue
